@@ -1,3 +1,449 @@
-import Robust.Store.LevelDB
+import Robust.Store.Lemmas
+/-!
+C09: the LevelDB-backed raft `LogStore`/`StableStore` refines two partial maps
+(`logView : index → entry`, `stableView : key → value`) under the representation invariant `WF`.
+-/
 namespace Robust.Props.C09
+open Robust Robust.Bytes Robust.Codec Robust.Store
+
+-- the theorem statements carry `WF` hypotheses uniformly, also where a proof does not need them
+set_option linter.unusedVariables false
+
+/-! ### keys: order and disjointness -/
+
+theorem C09_be64_lt (a b : Nat) (ha : a < 2^64) (hb : b < 2^64) :
+    lexLt (Bytes.be64 a) (Bytes.be64 b) = true ↔ a < b := be64_lt a b ha hb
+
+theorem C09_be64_inj (a b : Nat) (ha : a < 2^64) (hb : b < 2^64)
+    (h : Bytes.be64 a = Bytes.be64 b) : a = b := be64_inj a b ha hb h
+
+/-- log entries and stable keys never shadow each other -/
+theorem C09_key_disjoint (i : Nat) (k : Bytes) : Bytes.be64 i ≠ stablePrefix ++ k :=
+  be64_ne_stable i k
+
+theorem C09_log_key_not_stable (i : Nat) : isStable (Bytes.be64 i) = false := isStable_be64 i
+
+theorem C09_stable_key_is_stable (k : Bytes) : isStable (stablePrefix ++ k) = true :=
+  isStable_stable k
+
+/-! ### invariant -/
+
+theorem C09_wf_empty (p : Bool) : WF (Store.empty p) := by
+  refine ⟨List.Pairwise.nil, fun k v h => ?_⟩
+  cases h
+
+theorem wf_put_log (s : Store) (p : Bool) (f : Fmt) (e : LogEntry) (h : WF s)
+    (hi : e.index < 2^64) : WF ⟨kvPut s.kv (be64 e.index) (.log f e), p⟩ :=
+  ⟨sorted_kvPut _ _ _ h.1, typed_kvPut_log _ _ _ h.2 hi⟩
+
+theorem C09_wf_storeLogProto (s : Store) (e : LogEntry) (h : WF s) (hi : e.index < 2^64) :
+    WF (s.storeLogProto e) := wf_put_log s _ _ e h hi
+
+theorem wf_foldl_put (f : Fmt) (es : List LogEntry) (m : KV) (h : Sorted m ∧ Typed m)
+    (hi : ∀ e ∈ es, e.index < 2^64) :
+    Sorted (es.foldl (fun kv e => kvPut kv (be64 e.index) (.log f e)) m) ∧
+    Typed (es.foldl (fun kv e => kvPut kv (be64 e.index) (.log f e)) m) := by
+  induction es generalizing m with
+  | nil => exact h
+  | cons e es ih =>
+    simp only [List.foldl_cons]
+    exact ih _ ⟨sorted_kvPut _ _ _ h.1, typed_kvPut_log _ _ _ h.2 (hi e List.mem_cons_self)⟩
+      (fun e' he' => hi e' (List.mem_cons_of_mem _ he'))
+
+theorem C09_wf_storeLogs (s : Store) (es : List LogEntry) (h : WF s)
+    (hi : ∀ e ∈ es, e.index < 2^64) : WF (s.storeLogs es) :=
+  wf_foldl_put _ es s.kv h hi
+
+theorem C09_wf_deleteRange (s : Store) (a b : Nat) (h : WF s) : WF (s.deleteRange a b) :=
+  ⟨sorted_filter _ _ h.1, typed_filter _ _ h.2⟩
+
+theorem C09_wf_set (s : Store) (k v : Bytes) (h : WF s) : WF (s.set k v) :=
+  ⟨sorted_kvPut _ _ _ h.1, typed_kvPut_raw _ _ _ h.2⟩
+
+/-! ### refinement: reads -/
+
+theorem C09_getLog (s : Store) (i : Nat) (h : WF s) (hi : i < 2^64) :
+    s.getLog i = match logView s i with | some e => .ok e | none => .error .notFound := by
+  unfold Store.getLog logView
+  cases hg : kvGet s.kv (be64 i) with
+  | none => rfl
+  | some v =>
+    obtain ⟨f, e, hv, _⟩ := typed_log_key _ h.2 i hi v (kvGet_some_mem _ _ _ hg)
+    subst hv; rfl
+
+theorem C09_get (s : Store) (k : Bytes) (h : WF s) : s.get k = .ok (stableView s k) := by
+  unfold Store.get stableView
+  cases hg : kvGet s.kv (stablePrefix ++ k) with
+  | none => rfl
+  | some v =>
+    obtain ⟨bs, hv⟩ := typed_stable_key _ h.2 k v (kvGet_some_mem _ _ _ hg)
+    subst hv; rfl
+
+/-! ### refinement: writes -/
+
+theorem logView_put_log (s : Store) (p : Bool) (f : Fmt) (e : LogEntry) (hi : e.index < 2^64)
+    (i : Nat) (hi' : i < 2^64) :
+    logView ⟨kvPut s.kv (be64 e.index) (.log f e), p⟩ i
+      = if i = e.index then some e else logView s i := by
+  unfold logView
+  simp only [kvGet_kvPut]
+  by_cases hie : i = e.index
+  · subst hie; simp
+  · rw [if_neg hie, if_neg (fun hk => hie (be64_inj _ _ hi' hi hk))]
+
+theorem stableView_put_log (s : Store) (p : Bool) (f : Fmt) (e : LogEntry) (k : Bytes) :
+    stableView ⟨kvPut s.kv (be64 e.index) (.log f e), p⟩ k = stableView s k := by
+  unfold stableView
+  rw [kvGet_kvPut_other _ _ _ _ (fun hk => be64_ne_stable _ _ hk.symm)]
+
+theorem C09_storeLogProto_view (s : Store) (e : LogEntry) (h : WF s) (hi : e.index < 2^64)
+    (i : Nat) (hi' : i < 2^64) :
+    logView (s.storeLogProto e) i = if i = e.index then some e else logView s i :=
+  logView_put_log s _ _ e hi i hi'
+
+theorem C09_storeLogProto_stable (s : Store) (e : LogEntry) (h : WF s) (k : Bytes) :
+    stableView (s.storeLogProto e) k = stableView s k :=
+  stableView_put_log s _ _ e k
+
+theorem storeLogs_cons (s : Store) (e : LogEntry) (es : List LogEntry) :
+    s.storeLogs (e :: es)
+      = Store.storeLogs ⟨kvPut s.kv (be64 e.index) (.log (fmtOf s.useProto) e), s.useProto⟩ es := rfl
+
+/-- later entries of a batch win -/
+theorem C09_storeLogs_view (s : Store) (es : List LogEntry) (h : WF s)
+    (hi : ∀ e ∈ es, e.index < 2^64) (i : Nat) (hi' : i < 2^64) :
+    logView (s.storeLogs es) i
+      = match es.reverse.find? (fun e => e.index == i) with
+        | some e => some e
+        | none => logView s i := by
+  induction es generalizing s with
+  | nil => rfl
+  | cons e es ih =>
+    have he := hi e List.mem_cons_self
+    have hes : ∀ e' ∈ es, e'.index < 2^64 := fun e' he' => hi e' (List.mem_cons_of_mem _ he')
+    rw [storeLogs_cons, ih _ (wf_put_log s _ _ e h he) hes]
+    rw [List.reverse_cons, List.find?_append]
+    cases hf : es.reverse.find? (fun e => e.index == i) with
+    | some e' => rfl
+    | none =>
+      simp only [Option.none_or, List.find?_cons, List.find?_nil]
+      rw [logView_put_log s _ _ e he i hi']
+      by_cases hie : i = e.index
+      · subst hie; simp
+      · have : (e.index == i) = false := by simpa using fun hh => hie hh.symm
+        rw [this, if_neg hie]
+
+theorem storeLogs_stable (s : Store) (es : List LogEntry) (k : Bytes) :
+    stableView (s.storeLogs es) k = stableView s k := by
+  induction es generalizing s with
+  | nil => rfl
+  | cons e es ih => rw [storeLogs_cons, ih, stableView_put_log]
+
+theorem C09_storeLogs_stable (s : Store) (es : List LogEntry) (h : WF s) (k : Bytes) :
+    stableView (s.storeLogs es) k = stableView s k := storeLogs_stable s es k
+
+theorem C09_set_view (s : Store) (k v : Bytes) (h : WF s) (k' : Bytes) :
+    stableView (s.set k v) k' = if k' = k then some v else stableView s k' := by
+  unfold stableView Store.set
+  simp only [kvGet_kvPut, List.append_cancel_left_eq]
+  by_cases hk : k' = k
+  · rw [if_pos hk, if_pos hk]
+  · rw [if_neg hk, if_neg hk]
+
+theorem C09_set_log (s : Store) (k v : Bytes) (h : WF s) (i : Nat) :
+    logView (s.set k v) i = logView s i := by
+  unfold logView Store.set
+  simp only [kvGet_kvPut_other _ _ _ _ (be64_ne_stable i k)]
+
+theorem C09_uint64_roundtrip (s : Store) (k : Bytes) (v : Nat) (h : WF s) (hv : v < 2^64) :
+    (s.setUint64 k v).getUint64 k = .ok v := by
+  unfold Store.getUint64 Store.setUint64 Store.set
+  simp only [kvGet_kvPut_same, be64_length, if_true, rdBe64_be64' v hv]
+
+theorem C09_getUint64_missing (s : Store) (k : Bytes) (h : WF s) (hm : stableView s k = none) :
+    s.getUint64 k = .ok 0 := by
+  unfold stableView at hm
+  unfold Store.getUint64
+  cases hg : kvGet s.kv (stablePrefix ++ k) with
+  | none => rfl
+  | some v =>
+    obtain ⟨bs, hv⟩ := typed_stable_key _ h.2 k v (kvGet_some_mem _ _ _ hg)
+    subst hv; rw [hg] at hm; cases hm
+
+theorem be64_lt_decide (a b : Nat) (ha : a < 2^64) (hb : b < 2^64) :
+    lexLt (be64 a) (be64 b) = decide (a < b) := by
+  rw [Bool.eq_iff_iff, be64_lt a b ha hb]; simp
+
+/-- the keys `DeleteRange(a, b)` keeps -/
+def delKeep (a b : Nat) (k : Bytes) : Bool :=
+  !(inRange a (if b = 18446744073709551615 then none else some (b + 1)) k && !isStable k)
+
+theorem deleteRange_kv (s : Store) (a b : Nat) :
+    (s.deleteRange a b).kv = s.kv.filter (fun e => delKeep a b e.1) := rfl
+
+/-- exactly the indexes in [a,b], including b = 2^64-1 -/
+theorem C09_deleteRange_view (s : Store) (a b : Nat) (h : WF s) (ha : a < 2^64) (hb : b < 2^64)
+    (i : Nat) (hi : i < 2^64) :
+    logView (s.deleteRange a b) i = if a ≤ i ∧ i ≤ b then none else logView s i := by
+  unfold logView
+  rw [deleteRange_kv, kvGet_filter s.kv (delKeep a b)]
+  simp only [delKeep, isStable_be64, inRange, be64_lt_decide i a hi ha, Bool.not_false, Bool.and_true]
+  by_cases hb' : b = 18446744073709551615
+  · subst hb'
+    simp only [if_true, Bool.and_true, Bool.not_not, decide_eq_true_eq]
+    by_cases hia : i < a
+    · rw [if_pos hia, if_neg (by omega)]
+    · rw [if_neg hia, if_pos (by omega)]
+  · simp only [if_neg hb', be64_lt_decide i (b + 1) hi (by omega)]
+    by_cases hc : a ≤ i ∧ i ≤ b
+    · rw [if_pos hc, if_neg]
+      have h1 : decide (i < a) = false := by simp; omega
+      have h2 : decide (i < b + 1) = true := by simp; omega
+      rw [h1, h2]; decide
+    · rw [if_neg hc, if_pos]
+      by_cases h1 : i < a
+      · simp [h1]
+      · have h2 : ¬ i < b + 1 := by omega
+        simp [h1, h2]
+
+/-- never touches the stable store -/
+theorem C09_deleteRange_stable (s : Store) (a b : Nat) (h : WF s) (k : Bytes) :
+    stableView (s.deleteRange a b) k = stableView s k := by
+  unfold stableView
+  rw [deleteRange_kv, kvGet_filter s.kv (delKeep a b)]
+  simp only [delKeep, isStable_stable, Bool.not_true, Bool.and_false, Bool.not_false, if_true]
+
+/-! ### first / last index -/
+
+theorem all_stable_of_no_logs (s : Store) (h : WF s)
+    (hn : ∀ i, i < 2^64 → logView s i = none) : ∀ p ∈ s.kv, isStable p.1 = true := by
+  rintro ⟨k, v⟩ hp
+  rcases h.2 k v hp with ⟨i, f, e, hi, hk, hv, _⟩ | ⟨k', bs, hk, _⟩
+  · subst hk hv
+    have := logView_of_mem s h.1 i f e hp
+    rw [hn i hi] at this; cases this
+  · subst hk; exact isStable_stable k'
+
+/-- scanning a permutation `l` of the database that is sorted by `R`, the first key after the
+leading stable block is a log key `be64 n` that is `R`-extreme among the log keys -/
+theorem scan_extreme (s : Store) (h : WF s) (l : KV) (R : Bytes → Bytes → Prop)
+    (hl : (l.map (·.1)).Pairwise R) (hmem : ∀ p, p ∈ l ↔ p ∈ s.kv)
+    (i : Nat) (e : LogEntry) (hv : logView s i = some e) :
+    ∃ n, (match l.dropWhile (fun e => isStable e.1) with
+          | [] => .ok 0
+          | (k, _) :: _ => keyIndex k) = Except.ok n ∧ n < 2^64 ∧ (logView s n).isSome ∧
+      ∀ j, (logView s j).isSome → be64 j = be64 n ∨ R (be64 n) (be64 j) := by
+  obtain ⟨f, hm⟩ := logView_eq_some s i e hv
+  cases hd : l.dropWhile (fun e => isStable e.1) with
+  | nil =>
+    have := (dropWhile_eq_nil_iff _ _).1 hd _ ((hmem _).2 hm)
+    simp only [isStable_be64] at this
+    cases this
+  | cons x rest =>
+    obtain ⟨k, v⟩ := x
+    obtain ⟨h1, h2, h3⟩ := dropWhile_head_least (·.1) R (fun e => isStable e.1) l hl _ _ hd
+    obtain ⟨n, f', e', hn, hk, hv', _⟩ := typed_nonstable _ h.2 k v ((hmem _).1 h2) h1
+    subst hk hv'
+    refine ⟨n, keyIndex_be64 n hn, hn, ?_, fun j hj => ?_⟩
+    · rw [logView_of_mem s h.1 n f' e' ((hmem _).1 h2)]; rfl
+    · obtain ⟨fj, ej, hmj⟩ := logView_isSome_mem s j hj
+      rcases h3 _ ((hmem _).2 hmj) (isStable_be64 j) with h4 | h4
+      · exact Or.inl (congrArg Prod.fst h4)
+      · exact Or.inr h4
+
+theorem C09_firstIndex (s : Store) (h : WF s) :
+    (∀ i, i < 2^64 → logView s i = none) → s.firstIndex = .ok 0 := by
+  intro hn
+  unfold Store.firstIndex
+  rw [(dropWhile_eq_nil_iff _ _).2 (fun p hp => all_stable_of_no_logs s h hn p hp)]
+
+theorem C09_firstIndex_least (s : Store) (h : WF s) (i : Nat) (hi : i < 2^64) (e : LogEntry)
+    (hv : logView s i = some e) :
+    ∃ n, s.firstIndex = .ok n ∧ n ≤ i ∧ (logView s n).isSome ∧
+      ∀ j, j < 2^64 → (logView s j).isSome → n ≤ j := by
+  obtain ⟨n, h1, hn, h2, h3⟩ :=
+    scan_extreme s h s.kv (fun a b => lexLt a b = true) h.1 (fun _ => Iff.rfl) i e hv
+  have key : ∀ j, j < 2^64 → (logView s j).isSome → n ≤ j := by
+    intro j hj hs
+    rcases h3 j hs with h4 | h4
+    · exact Nat.le_of_eq (be64_inj _ _ hj hn h4).symm
+    · exact Nat.le_of_lt ((be64_lt n j hn hj).1 h4)
+  exact ⟨n, h1, key i hi (by rw [hv]; rfl), h2, key⟩
+
+theorem C09_lastIndex (s : Store) (h : WF s) :
+    (∀ i, i < 2^64 → logView s i = none) → s.lastIndex = .ok 0 := by
+  intro hn
+  unfold Store.lastIndex
+  rw [(dropWhile_eq_nil_iff _ _).2
+    (fun p hp => all_stable_of_no_logs s h hn p (List.mem_reverse.1 hp))]
+
+theorem C09_lastIndex_greatest (s : Store) (h : WF s) (i : Nat) (hi : i < 2^64) (e : LogEntry)
+    (hv : logView s i = some e) :
+    ∃ n, s.lastIndex = .ok n ∧ i ≤ n ∧ (logView s n).isSome ∧
+      ∀ j, j < 2^64 → (logView s j).isSome → j ≤ n := by
+  obtain ⟨n, h1, hn, h2, h3⟩ :=
+    scan_extreme s h s.kv.reverse (fun a b => lexLt b a = true)
+      (by rw [List.map_reverse, List.pairwise_reverse]; exact h.1)
+      (fun _ => List.mem_reverse) i e hv
+  have key : ∀ j, j < 2^64 → (logView s j).isSome → j ≤ n := by
+    intro j hj hs
+    rcases h3 j hs with h4 | h4
+    · exact Nat.le_of_eq (be64_inj _ _ hj hn h4)
+    · exact Nat.le_of_lt ((be64_lt j n hj hn).1 h4)
+  exact ⟨n, h1, key i hi (by rw [hv]; rfl), h2, key⟩
+
+/-! ### conversion JSON → protobuf and reopen keep the abstract contents
+(entries decode to the same replicated message) -/
+
+/-- what a reader decodes from the payload of the entry at `idx`: the encoding is forgotten and
+the id defaulting of `NewMessageFromBytes` applied -/
+def Data.sem (idx : Nat) : Data → Data
+  | .msg _ m => .msg .proto (m.withDefaultId idx)
+  | .raw bs => .raw bs
+
+def LogEntry.sem (e : LogEntry) : LogEntry := { e with data := Data.sem e.index e.data }
+
+theorem withDefaultId_idem (m : RMsg) (i : Nat) :
+    (m.withDefaultId i).withDefaultId i = m.withDefaultId i := by
+  unfold RMsg.withDefaultId
+  by_cases h : m.id = 0
+  · rw [if_pos h]
+    by_cases hi : i = 0
+    · subst hi; simp
+    · simp [hi]
+  · rw [if_neg h, if_neg h]
+
+/-- a pending write: replaces the value under an existing log key of `s` by a protobuf-encoded
+entry with the same meaning -/
+def Good (s : Store) (p : Bytes × Val) : Prop :=
+  ∃ f e e', e'.index < 2^64 ∧ p = (be64 e'.index, Val.log .proto e') ∧
+    (be64 e'.index, Val.log f e) ∈ s.kv ∧ LogEntry.sem e' = LogEntry.sem e
+
+/-- `db` is a well-formed database with the same abstract contents as `s` -/
+def Equiv (s : Store) (db : KV) : Prop :=
+  WF ⟨db, s.useProto⟩ ∧
+  (∀ i, i < 2^64 →
+    (logView ⟨db, s.useProto⟩ i).map LogEntry.sem = (logView s i).map LogEntry.sem) ∧
+  ∀ k, stableView ⟨db, s.useProto⟩ k = stableView s k
+
+theorem equiv_refl (s : Store) (h : WF s) : Equiv s s.kv := ⟨h, fun _ _ => rfl, fun _ => rfl⟩
+
+theorem equiv_put (s : Store) (h : WF s) (db : KV) (p : Bytes × Val) (hd : Equiv s db)
+    (hp : Good s p) : Equiv s (kvPut db p.1 p.2) := by
+  obtain ⟨f, e, e', hi, rfl, hm, hsem⟩ := hp
+  obtain ⟨h1, h2, h3⟩ := hd
+  refine ⟨wf_put_log ⟨db, s.useProto⟩ _ _ e' h1 hi, fun j hj => ?_, fun k => ?_⟩
+  · rw [logView_put_log ⟨db, s.useProto⟩ _ _ e' hi j hj]
+    by_cases hje : j = e'.index
+    · subst hje
+      rw [if_pos rfl, logView_of_mem s h.1 _ f e hm]
+      simp only [Option.map_some, hsem]
+    · rw [if_neg hje]; exact h2 j hj
+  · rw [stableView_put_log ⟨db, s.useProto⟩]; exact h3 k
+
+theorem equiv_flush (s : Store) (h : WF s) (pending : List (Bytes × Val)) (db : KV)
+    (hd : Equiv s db) (hp : ∀ p ∈ pending, Good s p) :
+    Equiv s (pending.foldl (fun m p => kvPut m p.1 p.2) db) := by
+  induction pending generalizing db with
+  | nil => exact hd
+  | cons p ps ih =>
+    simp only [List.foldl_cons]
+    exact ih _ (equiv_put s h db p hd (hp p List.mem_cons_self))
+      (fun q hq => hp q (List.mem_cons_of_mem _ hq))
+
+theorem convertEntry_good (s : Store) (h : WF s) (k : Bytes) (f : Fmt) (e : LogEntry)
+    (hm : (k, Val.log f e) ∈ s.kv) (nv : Val) (hc : convertEntry f e = some (some nv)) :
+    Good s (k, nv) := by
+  have hk : k = be64 e.index ∧ e.index < 2^64 := by
+    rcases h.2 _ _ hm with ⟨i, f', e0, hi, hk, hv, he⟩ | ⟨k', bs, _, hv⟩
+    · cases hv; subst he; exact ⟨hk, hi⟩
+    · cases hv
+  obtain ⟨rfl, hi⟩ := hk
+  unfold convertEntry at hc
+  split at hc
+  · split at hc
+    · cases hc; exact ⟨f, e, e, hi, rfl, hm, rfl⟩
+    · cases hc
+  · split at hc
+    · split at hc
+      · rename_i g m hdata
+        cases hc
+        refine ⟨f, e, { e with data := .msg .proto (m.withDefaultId e.index) }, hi, rfl, hm, ?_⟩
+        simp only [LogEntry.sem, Data.sem, hdata, withDefaultId_idem]
+      · cases hc
+    · cases hc
+
+theorem convertLoop_nil (db : KV) (pending : List (Bytes × Val)) :
+    convertLoop db pending [] = pending.foldl (fun m p => kvPut m p.1 p.2) db := rfl
+
+theorem convertLoop_cons (db : KV) (pending : List (Bytes × Val)) (k : Bytes) (v : Val)
+    (rest : KV) :
+    convertLoop db pending ((k, v) :: rest) =
+      if isStable k then pending.foldl (fun m p => kvPut m p.1 p.2) db
+      else match v with
+        | .raw _ => db
+        | .log f e =>
+          match convertEntry f e with
+          | none => db
+          | some w =>
+            if e.type = 0 && (match w with | some nv => pending ++ [(k, nv)] | none => pending).length > 100 then
+              convertLoop ((match w with | some nv => pending ++ [(k, nv)] | none => pending).foldl
+                (fun (m : KV) (p : Bytes × Val) => kvPut m p.1 p.2) db) [] rest
+            else convertLoop db (match w with | some nv => pending ++ [(k, nv)] | none => pending) rest := rfl
+
+theorem equiv_convertLoop (s : Store) (h : WF s) (rest : KV) (db : KV)
+    (pending : List (Bytes × Val)) (hd : Equiv s db) (hp : ∀ p ∈ pending, Good s p)
+    (hr : ∀ x ∈ rest, x ∈ s.kv) : Equiv s (convertLoop db pending rest) := by
+  induction rest generalizing db pending with
+  | nil => rw [convertLoop_nil]; exact equiv_flush s h pending db hd hp
+  | cons x rest ih =>
+    obtain ⟨k, v⟩ := x
+    have hr' : ∀ x ∈ rest, x ∈ s.kv := fun x hx => hr x (List.mem_cons_of_mem _ hx)
+    rw [convertLoop_cons]
+    split
+    · exact equiv_flush s h pending db hd hp
+    · split
+      · exact hd
+      · rename_i f e
+        split
+        · exact hd
+        · rename_i w hw
+          have hp' : ∀ p ∈ (match w with | some nv => pending ++ [(k, nv)] | none => pending),
+              Good s p := by
+            intro p hpm
+            cases w with
+            | none => exact hp p hpm
+            | some nv =>
+              rcases List.mem_append.1 hpm with hpm | hpm
+              · exact hp p hpm
+              · rw [List.mem_singleton.1 hpm]
+                exact convertEntry_good s h k f e (hr _ List.mem_cons_self) nv hw
+          generalize (match w with | some nv => pending ++ [(k, nv)] | none => pending) = pd
+            at hp' ⊢
+          split
+          · exact ih _ [] (equiv_flush s h pd db hd hp') (fun _ hq => by cases hq) hr'
+          · exact ih db pd hd hp' hr'
+
+theorem equiv_convert (s : Store) (h : WF s) : Equiv s s.convertToProto.kv :=
+  equiv_convertLoop s h _ s.kv [] (equiv_refl s h) (fun _ hq => by cases hq)
+    (fun x hx => List.dropWhile_subset _ hx)
+
+theorem C09_convert_view (s : Store) (h : WF s) (i : Nat) (hi : i < 2^64) :
+    (logView s.convertToProto i).map LogEntry.sem = (logView s i).map LogEntry.sem :=
+  (equiv_convert s h).2.1 i hi
+
+theorem C09_convert_stable (s : Store) (h : WF s) (k : Bytes) :
+    stableView s.convertToProto k = stableView s k :=
+  (equiv_convert s h).2.2 k
+
+theorem C09_wf_convert (s : Store) (h : WF s) : WF s.convertToProto :=
+  (equiv_convert s h).1
+
+theorem C09_reopen_view (s : Store) (p : Bool) (h : WF s) (i : Nat) (hi : i < 2^64) :
+    (logView (s.reopen p) i).map LogEntry.sem = (logView s i).map LogEntry.sem := by
+  unfold Store.reopen
+  cases p with
+  | false => rfl
+  | true => exact C09_convert_view ⟨s.kv, true⟩ h i hi
+
 end Robust.Props.C09
